@@ -33,6 +33,93 @@ func runC13(w *World, r *Report) {
 	ruleLeafTypes(w, r)
 	ruleIfLayout(w, r)
 	ruleDumpSkip(w, r)
+	ruleDumpVerbatim(w, r)
+}
+
+// ruleDumpVerbatim: text that has been rendered (a leaf, a nested expression)
+// is only ever concatenated or written, never passed through a callee that
+// transforms text: such a callee cannot tell the inside of a string literal
+// from layout (splitting on line breaks to indent is what broke multi-line
+// literals).
+func ruleDumpVerbatim(w *World, r *Report) {
+	const rule = "R-DUMPVERBATIM"
+	r.Rule(rule, "rendered text in Dump flows only into concatenation, Sprintf arguments and Builder writes, never into a text-transforming callee", 1)
+	dump := w.MustFn(r, rule, "Dump")
+	if dump == nil {
+		return
+	}
+	set := w.Closure(w.VTA, []*ssa.Function{dump}, true)
+	transforming := func(name string) bool {
+		if !strings.HasPrefix(name, "strings.") {
+			return false
+		}
+		switch name {
+		case "strings.Join", "strings.Repeat", "strings.Contains", "strings.ContainsRune", "strings.HasPrefix", "strings.HasSuffix", "strings.Count", "strings.Index":
+			return false
+		}
+		return true
+	}
+	bad := 0
+	n := 0
+	for _, fn := range w.SortedFuncs(set) {
+		EachInstr(fn, func(in ssa.Instruction) {
+			c, ok := in.(*ssa.Call)
+			if !ok {
+				return
+			}
+			name := calleeFullName(&c.Call)
+			if name == "" {
+				return
+			}
+			n++
+			if !transforming(name) {
+				return
+			}
+			// is an argument rendered text? (result of the recursive helper or of dumpLeafNode, or a Builder's String())
+			for _, a := range c.Call.Args {
+				if renderedText(a, 0) {
+					bad++
+					r.Fail(rule, w.InstrPos(c), w.Name(fn), describe(c), "already-rendered text is passed through "+name+": the inside of a string literal is treated as layout")
+				}
+			}
+		})
+	}
+	if bad == 0 {
+		r.OK(rule, w.Pos(dump.Pos()), "Dump", fmt.Sprintf("%d static call sites in Dump's closure", n), "no text-transforming callee receives rendered text")
+	}
+}
+
+// renderedText: the value is (derived from) the text returned by the
+// recursive dump helper, dumpLeafNode, or a Builder.
+func renderedText(v ssa.Value, depth int) bool {
+	if depth > 5 || !isStringLike(v.Type()) {
+		return false
+	}
+	switch x := v.(type) {
+	case *ssa.Extract:
+		if c, ok := x.Tuple.(*ssa.Call); ok {
+			if isDynamicCall(&c.Call) {
+				return true // the recursive helper (called through its variable)
+			}
+			if f := c.Call.StaticCallee(); f != nil && f.Name() == "dumpLeafNode" {
+				return true
+			}
+		}
+	case *ssa.Call:
+		name := calleeFullName(&x.Call)
+		if name == "(*strings.Builder).String" || name == "fmt.Sprintf" || name == "fmt.Sprint" {
+			return true
+		}
+	case *ssa.Phi:
+		for _, e := range x.Edges {
+			if renderedText(e, depth+1) {
+				return true
+			}
+		}
+	case *ssa.BinOp:
+		return renderedText(x.X, depth+1) || renderedText(x.Y, depth+1)
+	}
+	return false
 }
 
 func ruleCodec(w *World, r *Report) {
@@ -499,6 +586,8 @@ var c13Witnesses = []Witness{
 		{File: "util.go", Old: "				res[3], // false branch", New: "				res[2], // false branch"}}},
 	{Name: "compiler-emits-false-branch-before-fi", Rule: "R-IFLAYOUT", Edits: []Edit{
 		{File: "compiler.go", Old: "				trueBranch  = root.children[1]\n				falseBranch = root.children[2]\n				endIfNode   = root.children[3]", New: "				trueBranch  = root.children[2]\n				falseBranch = root.children[1]\n				endIfNode   = root.children[3]"}}},
+	{Name: "dump-reindents-rendered-text", Rule: "R-DUMPVERBATIM", Edits: []Edit{
+		{File: "util.go", Old: "			sb.WriteString(\"\\n\" + childIndent + cc)", New: "			for _, cs := range strings.Split(cc, \"\\n\") {\n				sb.WriteString(\"\\n\" + childIndent + strings.TrimLeft(cs, \" \"))\n			}"}}},
 	{Name: "benign-string-builder-for-quotes", Benign: true, Edits: []Edit{
 		{File: "util.go", Old: "			sb.WriteString(`\"` + s + `\"`)", New: "			quoted := \"\\\"\" + s + \"\\\"\"\n			sb.WriteString(quoted)"}}},
 }
